@@ -5,12 +5,12 @@ package store
 // Contracts for the verification machinery in /verif (comment-only; see /verif/DESIGN.md).
 
 //@ func IsIdentity
-//@   ensures def [C04,C07]: err == nil ==> ok == (mhtype(key) == 0) && bytesval(digest) == digestof(mhof(key))
+//@   ensures def [C01,C04,C07]: err == nil ==> ok == (mhtype(key) == 0) && bytesval(digest) == digestof(mhof(key))
 
 //@ func ShouldPut
 //@   let _, idok, iderr := call[IsIdentity#0]
-//@   ensures identity_skipped [C04]: !storeIdentityCIDs && iderr == nil && mhtype(c) == 0 ==> err == nil && !result0
-//@   ensures too_large [C04]: (storeIdentityCIDs || (iderr == nil && mhtype(c) != 0)) && bytelen(c) > maxIndexCidSize ==> !result0 && typeis(err, "*car2.ErrCidTooLarge")
+//@   ensures identity_skipped [C04,C05]: !storeIdentityCIDs && iderr == nil && mhtype(c) == 0 ==> err == nil && !result0
+//@   ensures too_large [C04,C05]: (storeIdentityCIDs || (iderr == nil && mhtype(c) != 0)) && bytelen(c) > maxIndexCidSize ==> !result0 && typeis(err, "*car2.ErrCidTooLarge")
 //@   ensures allow_dup [C04]: err == nil && blockstoreAllowDuplicatePuts && !(!storeIdentityCIDs && mhtype(c) == 0) ==> result0
 //@   ensures dedup_by_cid [C04]: err == nil && !blockstoreAllowDuplicatePuts && blockstoreUseWholeCIDs && !(!storeIdentityCIDs && mhtype(c) == 0) ==> result0 == !byCid(idx, c)
 //@   ensures dedup_by_multihash [C04]: err == nil && !blockstoreAllowDuplicatePuts && !blockstoreUseWholeCIDs && !(!storeIdentityCIDs && mhtype(c) == 0) ==> result0 == !byMh(idx, mhof(c))
@@ -83,14 +83,14 @@ package store
 //@   call[Seeker.Seek#0] assert to_the_first_section [C06,C12]: ref(arg0) == ref(v1r) && arg1 == wrap_s64(hsize) && arg2 == 0
 //@   let _, serr := call[OffsetWriteSeeker.Seek#0]
 //@   check length_error_is_fatal [C06,C12]: executed("varint.ReadUvarint#0") && lerr != nil && lerr != io.EOF ==> err != nil
-//@   check a_clean_end_resumes_and_positions_the_writer [C06,C12]: executed("varint.ReadUvarint#0") && (lerr == io.EOF || (lerr == nil && length == 0 && zeroLengthSectionAsEOF)) ==> err == serr
+//@   check a_clean_end_resumes_and_positions_the_writer [C05,C06,C12]: executed("varint.ReadUvarint#0") && (lerr == io.EOF || (lerr == nil && length == 0 && zeroLengthSectionAsEOF)) ==> err == serr
 //@   call[OffsetWriteSeeker.Seek#0] assert reached_only_from_a_clean_end [C06,C12]: lerr == io.EOF || (lerr == nil && length == 0 && zeroLengthSectionAsEOF)
 //@   call[fmt.Errorf#4] assert refuses_only_a_zero_length_section_it_was_not_told_to_accept [C12]: lerr == nil && length == 0 && !zeroLengthSectionAsEOF
 //@   loop[0] step continues_only_after_a_real_section [C06,C12]: lerr == nil && length != 0
 //@   call[cid.CidFromReader#0] assert key_follows_the_length [C06,C12]: ref(arg0) == ref(v1r) && lerr == nil && length != 0
 //@   let nextOffset, skerr := call[Seeker.Seek#1]
-//@   call[Seeker.Seek#1] assert skips_the_block [C06,C12]: ref(arg0) == ref(v1r) && arg1 == wrap_s64(wrap_s64(length) - n) && arg2 == 1
-//@   call[ReaderAt.ReadAt#1] assert probes_the_last_byte_of_the_section [C06]: len(arg1) == 1 && arg2 == wrap_s64(nextOffset - 1) && skerr == nil
+//@   call[Seeker.Seek#1] assert skips_the_block [C05,C06,C12]: ref(arg0) == ref(v1r) && arg1 == wrap_s64(wrap_s64(length) - n) && arg2 == 1
+//@   call[ReaderAt.ReadAt#1] assert probes_the_last_byte_of_the_section [C05,C06]: len(arg1) == 1 && arg2 == wrap_s64(nextOffset - 1) && skerr == nil
 //@   requires writer: dataWriter != nil && objinv(dataWriter)
 //@   requires index: idx != nil
 //@   let header, herr := call[carv1.ReadHeader#0]
@@ -114,10 +114,10 @@ package store
 //@   loop[0] invariant offset [C01,C06,C12]: sectionOffset == wrap_s64(pos(v1r) - sbase(v1r))
 //@   loop[0] invariant reader_ok [C12]: objinv(v1r)
 //@   loop[0] decreases lim(v1r) - pos(v1r)
-//@   loop[0] step every_section_indexed [C01,C06,C12]: nrec(idx) == athead(0, nrec(idx)) + 1
+//@   loop[0] step every_section_indexed [C01,C06,C11,C12]: nrec(idx) == athead(0, nrec(idx)) + 1
 //@   call[InsertionIndex.InsertNoReplace#0] assert section_on_file [C06]: athead(0, pos(v1r)) + vsize(length) + length <= lim(v1r)
 //@   call[InsertionIndex.InsertNoReplace#0] assert record [C01,C03,C06,C12]: ref(arg0) == ref(idx) && arg1 == c && arg2 == wrap_u64(wrap_s64(athead(0, pos(v1r)) - sbase(v1r)))
-//@   call[OffsetWriteSeeker.Seek#0] assert reposition [C06,C12,C16]: ref(arg0) == ref(dataWriter) && arg1 == wrap_s64(athead(0, pos(v1r)) - sbase(v1r)) && arg2 == 0
-//@   check positioned [C06,C12,C16]: err == nil ==> wn(dataWriter) == wrap_s64(wrap_s64(athead(0, pos(v1r)) - sbase(v1r)) + wbase(dataWriter))
+//@   call[OffsetWriteSeeker.Seek#0] assert reposition [C05,C06,C12,C16]: ref(arg0) == ref(dataWriter) && arg1 == wrap_s64(athead(0, pos(v1r)) - sbase(v1r)) && arg2 == 0
+//@   check positioned [C05,C06,C12,C16]: err == nil ==> wn(dataWriter) == wrap_s64(wrap_s64(athead(0, pos(v1r)) - sbase(v1r)) + wbase(dataWriter))
 //@   ensures reject_roots [C12]: herr == nil && !matches ==> err != nil
 //@   ensures reject_header [C12]: herr != nil ==> err != nil
